@@ -104,6 +104,7 @@ class C12(Prop):
         self.Days, self.tools = Days, tools
 
     def cases(self, tier, seed, shard, nshards):
+        yield {"kind": "first_use"}     # must come first: the very first decode of every mask in this process
         yield {"kind": "subsets"}
         yield {"kind": "masks"}
         yield {"kind": "sequences"}
@@ -163,7 +164,34 @@ class C12(Prop):
     def run_case(self, case, acc, ctx):
         D = self.Days
         kind = case["kind"]
-        if kind == "subsets":
+        if kind == "first_use":
+            # the object handed out by the very first decode of a mask in the process is edited by its caller (a schedule's days
+            # are a plain public set); the second and third decode of that mask must not notice
+            for mask in range(2, 255, 2):
+                acc.ev()
+                acc.distinct()
+                want = {n for n, b in BITS.items() if mask & b}
+                try:
+                    first = self.tools.bit_summary_to_days(mask)
+                    got_first = {m.name for m in first}
+                    if isinstance(first, set):
+                        extra = next(D[n] for n in NAMES if n not in want) if len(want) < 7 else None
+                        if extra is not None:
+                            first.add(extra)
+                        else:
+                            first.discard(D.MONDAY)
+                    second = self.tools.bit_summary_to_days(mask)
+                    third = self.tools.bit_summary_to_days(mask)
+                    self.dec_rec.drain()
+                    for which, res in (("first", got_first), ("second", {m.name for m in second}), ("third", {m.name for m in third})):
+                        if res != want:
+                            acc.violation("decode-aliases-earlier-result" if which != "first" else "decode-wrong-set", f"mask {mask}: the {which} decode in this process "
+                                          f"returns {sorted(res)}, want {sorted(want)} (the first result was edited by its caller)", {"mask": mask})
+                            break
+                except Exception as exc:
+                    acc.violation("decode-raised", f"mask {mask} raised {type(exc).__name__} within its first three decodes", {"mask": mask})
+            acc.count("first_use_aliasing_probes", 127)
+        elif kind == "subsets":
             for n in range(1, 8):
                 for names in combinations(NAMES, n):
                     members = [D[x] for x in names]
